@@ -136,6 +136,7 @@ def c16_case(draw):
     case['corrupt'] = draw(st.sampled_from([None, None, 'amount',
                                             'after_end', 'discard',
                                             'edits', 'edits']))
+    case['file_hands'] = draw(st.sampled_from([0, 0, 1, 2, 3, 11, 12, 23]))
     if case['corrupt'] == 'edits':
         # generated edits of the action list (delete / duplicate / swap a
         # line, relabel the player, change an amount, drop a board card,
@@ -157,6 +158,20 @@ def budget(tier):
 
 def strategy(tier):
     return c16_case()
+
+
+def same_history(a, b):
+    """Field-wise equality of two hand histories, callables (divmod, rake,
+    value parser - not part of the file format, and a deep copy of a
+    functools.partial does not compare equal to the original) left out."""
+    import dataclasses
+    for f in dataclasses.fields(a):
+        x, y = getattr(a, f.name), getattr(b, f.name)
+        if callable(x) and callable(y):
+            continue
+        if x != y:
+            return False
+    return True
 
 
 def player_ops(ops):
@@ -269,6 +284,78 @@ def check(case, stats):
                 out.append(V(ID, 'dumps_not_fixed_point', '',
                              f'first:\n{text[:400]}\nsecond:\n{text2[:400]}'))
                 return out
+            # nothing that was not given may appear (a field leaking from
+            # another history of this process, say)
+            given = set((case.get('user') or {}))
+            extra_f = set(h2.user_defined_fields or {}) - given
+            if extra_f:
+                out.append(V(ID, 'user_field_invented', '',
+                             f'fields {sorted(extra_f)} were never given;'
+                             f' user fields given: {sorted(given)}'))
+                return out
+            if given:
+                # the same hand saved again without the user fields, in the
+                # same process: histories do not share state
+                meta_only = {k: v for k, v in kwargs.items()
+                             if k not in given}
+                hp = HandHistory.from_game_state(game, s, **meta_only)
+                hp2 = HandHistory.loads(hp.dumps())
+                leak = set(hp.user_defined_fields or {}) | \
+                    set(hp2.user_defined_fields or {})
+                if leak:
+                    out.append(V(ID, 'user_field_invented', 'leak',
+                                 f'a second history of the same hand, built'
+                                 f' without user fields, carries'
+                                 f' {sorted(leak)}'))
+                    return out
+            # several hands in one file: same hands, same order; the binary
+            # file API agrees with the text API
+            k = case.get('file_hands') or 0
+            if k:
+                import copy as _copy
+                import io
+                hs = []
+                for i in range(k):
+                    hi = _copy.deepcopy(h2)
+                    hi.hand = 100 + i
+                    hs.append(hi)
+                try:
+                    ftext = HandHistory.dumps_all(hs)
+                    back = list(HandHistory.loads_all(ftext))
+                    fp = io.BytesIO()
+                    HandHistory.dump_all(hs, fp)
+                    fp.seek(0)
+                    back2 = list(HandHistory.load_all(fp))
+                    fp1 = io.BytesIO()
+                    hs[0].dump(fp1)
+                    fp1.seek(0)
+                    one = HandHistory.load(fp1)
+                except Exception as e:  # noqa: BLE001
+                    if not _is_engine_exception(e):
+                        raise
+                    out.append(V(ID, 'multi_hand_file_failed', exc_key(e),
+                                 f'{k} hands: {type(e).__name__}: {e}'))
+                    return out
+                stats.count('class:multi_hand_file')
+                if [b.hand for b in back] != [x.hand for x in hs] or \
+                        len(back) != len(hs) or not all(
+                            same_history(x, y) for x, y in zip(back, hs)):
+                    out.append(V(ID, 'multi_hand_file_differs', 'loads_all',
+                                 f'{k} hands written with hand numbers'
+                                 f' {[x.hand for x in hs]}, read back'
+                                 f' {[b.hand for b in back]}'))
+                    return out
+                if len(back2) != len(hs) or not all(
+                        same_history(x, y) for x, y in zip(back2, hs)) \
+                        or not same_history(one, hs[0]):
+                    out.append(V(ID, 'multi_hand_file_differs', 'file_api',
+                                 f'load_all/load of what dump_all/dump wrote'
+                                 f' differs from the text API ({k} hands)'))
+                    return out
+                if HandHistory.dumps_all(back) != ftext:
+                    out.append(V(ID, 'multi_hand_file_differs', 'fixed_point',
+                                 f'dumps_all(loads_all(text)) != text'))
+                    return out
             # user fields really present in the text
             for k, v in (case.get('user') or {}).items():
                 if h2.user_defined_fields.get(k, '<missing>') != v:
